@@ -89,6 +89,8 @@ func main() {
 		}
 		fmt.Printf("paths=%d aborted=%d obligations=%d discharged=%d violations=%d reach=%v\n", paths, aborted, obl, dis, viol, reach)
 		fmt.Printf("solver: %+v instrs=%d axioms=%d wall=%.1fs\n", sol.Stats, ex.instrs, ex.axioms, time.Since(t0).Seconds())
+	case "selftest":
+		os.Exit(selfTest())
 	case "check":
 		if pf := os.Getenv("QSYM_PROF"); pf != "" {
 			f, _ := os.Create(pf)
